@@ -124,10 +124,10 @@ class Intersection:
         avals = (mina, (mina + maxa) / 2, maxa)
         bvals = (minb, (minb + maxb) / 2, maxb)
         for aval in avals:
-            if (aval - minb) * (aval - maxb) < 0:
+            if (aval - minb) * (aval - maxb) <= 0:
                 return True
         for bval in bvals:
-            if (bval - mina) * (bval - maxa) < 0:
+            if (bval - mina) * (bval - maxa) <= 0:
                 return True
         return False
 
